@@ -39,14 +39,16 @@ CHECKS = {
             "Context ids of many shapes are stored in three process lifetimes (clean restarts) under shard counts 1..16; the shard tag in "
             "event ids must be constant per context within and across lifetimes, WAL lines must sit under the tagged shard's directory, "
             "QUERY/REPLAY FOR ctx must return exactly the context's events, the unscoped QUERY exactly the union, and the unscoped "
-            "ORDER BY k DESC LIMIT 1..3 the top-n of the union (newest events in memory on some shards, older ones in segments of others).",
+            "ORDER BY k DESC LIMIT 1..3 the top-n of the union (newest events in memory on some shards, older ones in segments of others). A burst "
+            "task writes 4300 / 8300 events to one context while the scripted clock is 60-120 s behind the shard's newest id.",
             "shard tag decoded from event_id bits 12..21; crash restarts are excluded here (loss after crash is C01's subject)",
             "DESIGN.md §4 C12"),
     "C09": ("exploration",
             "runtime monitoring: relational oracle (python fold over the engine's own selection on the same state) per storage tier",
             "Aggregate queries (1-3 metrics, BY 0-2 fields, PER bucket on a payload time field, FOR/WHERE scopes, LIMIT) over generated "
             "event multisets are compared, in memory / mixed / L0 / compacted / restart layouts, with a fold over the rows the same "
-            "query without aggregation returns back to back: group keys, group count and every metric value.",
+            "query without aggregation returns back to back: group keys, group count and every metric value; the configured time zone is drawn "
+            "from UTC and six others (PER reference over zoneinfo).",
             "relational: selection defects do not leak in; metrics over empty inputs and the label of a null group are unspecified; "
             "known findings match on the first feature family of the failing table cell",
             "DESIGN.md §4 C09"),
@@ -54,7 +56,7 @@ CHECKS = {
             "runtime monitoring: relational oracle (python sort/slice of the engine's own unordered selection) per storage tier",
             "ORDER BY f [DESC] LIMIT n OFFSET m queries over int/float/string/datetime/nullable/core-timestamp keys with duplicate and "
             "missing values, n and m around 0, 1, |R| and beyond, WHERE/FOR scopes, data split over 1-5 shards and memory / L0 / compacted / "
-            "restart layouts, plus deep pages (OFFSET >= 10 x LIMIT); checks monotonicity, membership, multiplicity, slice size and the key multiset of positions m..m+n; "
+            "restart layouts incl. a memtable on top of segments, plus deep pages (OFFSET >= 10 x LIMIT) and small unordered scoped pages; checks monotonicity, membership, multiplicity, slice size and the key multiset of positions m..m+n; "
             "OFFSET without LIMIT must be rejected.",
             "ties arbitrary, nulls first or last accepted; scripted clock (hook) makes core timestamps distinct",
             "DESIGN.md §4 C10"),
@@ -64,7 +66,9 @@ CHECKS = {
             "instantiated per seed/configuration; a dry run records which of the ~60 named step points (WAL append/rotation, memtable rotation, "
             "segment write, index replace, publication, passive release, WAL cleanup, compaction write/hand-over/reclaim) fire; the history "
             "is re-run once per (point, first/last hit; thorough: every hit up to 40) with _exit at that point, plus SIGKILL between commands; "
-            "after restart QUERY/REPLAY/COUNT are checked against the applied/open sets, again after FLUSH+compaction and after a clean restart.",
+            "after restart QUERY/REPLAY/COUNT are checked against the applied/open sets, again after FLUSH+compaction and after a clean restart. "
+            "Overlap histories park a flush at its index-update points resp. the compaction hand-over before/after it takes the flush lock while "
+            "the other side runs, then SIGKILL + restart: nothing acknowledged may be missing.",
             "applied = acked + completed mailbox/WAL-drained barrier; crash = process death (no power-loss model); losses are attributed "
             "observationally (was the WAL line ever visible / still on disk at the crash) so that listed findings do not hide other losses",
             "DESIGN.md §4 C01"),
@@ -106,7 +110,8 @@ CHECKS = {
             "runtime monitoring: sequence oracle on REPLAY against the per-context append list, with read-path delays forcing both stream arrival orders",
             "Contexts with interleaved appends of two event types are replayed (typed, typed+RETURN, SINCE..USING, wildcard) after every "
             "second step of histories that place FLUSH / auto-flush / compaction rounds / restarts between the appends (all single placements "
-            "in a 6-append sequence + random histories), under zone sizes 1-3, fill 1-50, fan-in 2-3, each replay without delay and with a "
+            "in a 6-append sequence + random histories), under zone sizes 1-3, fill 1-50, fan-in 2-3, on the real clock or a scripted wall clock that "
+            "steps back and forth between appends, each replay without delay and with a "
             "15 ms delay at rd.memtable_flow_start resp. rd.segment_flow_start.",
             "single writer per history so apply order = issue order; the layout class in signatures is derived from the history",
             "DESIGN.md §4 C04"),
@@ -163,7 +168,7 @@ CHECKS = {
             "burst, restarts with the clock ahead / level / behind, all shard ids) are checked online for strictly increasing, never repeated ids "
             "with correct shard bits; store histories with bursts of ~4500 events in one scripted millisecond, FLUSH, compaction, SIGKILL and clean "
             "restarts read the event_id of every event after every step: globally unique, constant per event across tiers and recovery, increasing "
-            "in apply order within the shard, no event dropped by id dedup.",
+            "in apply order within the shard, no event dropped by id dedup; the schema carries payload fields named event_id and timestamp.",
             "the hook clock ticks after a fixed number of reads (a frozen clock would never end the generator's wait); lifetimes that start with "
             "the clock level with or behind the newest stored id are matched to the generator-restarts-from-zero finding",
             "DESIGN.md §4 C18"),
@@ -198,7 +203,7 @@ CHECKS = {
             "and permission management) under inline signature, connection AUTH + signature and session token, with valid, wrong-key, truncated, "
             "other-user, other-command, expired-token and revoked-key credentials and payloads carrying ' TOKEN ', ':' and other users' valid "
             "signatures. A reply with rows of an unreadable type, an accepted STORE without write permission, a successful admin command by a "
-            "non-admin, or anything but an authentication failure under invalid credentials is a violation. Changes come in same-second bursts "
+            "non-admin, or anything but an authentication failure under invalid credentials is a violation. GRANT / REVOKE name one to three event types; changes come in same-second bursts "
             "and the server is restarted (clean / kill) between steps: the whole matrix is probed again against the reloaded auth log.",
             "safety direction only (executed => authenticated and authorised); a permission entry with both flags revoked under a role is left "
             "unasserted because the docs describe it both ways; Compare/PLOT and BATCH are not driven; token expiry is the only wall-clock element",
